@@ -43,14 +43,14 @@ type task struct {
 
 // Sched is one simulated concurrent execution.
 type Sched struct {
-	tasks    []*task
+	tasks          []*task
 	Decisions      []uint32
 	SwitchPermille int
-	steps    int
-	Trace    []Step
-	Switches int
-	Deadlock string
-	MaxSteps int
+	steps          int
+	Trace          []Step
+	Switches       int
+	Deadlock       string
+	MaxSteps       int
 
 	// baton: id of the task allowed to run; -1 = the controlling goroutine
 	baton    int
@@ -65,10 +65,10 @@ type Sched struct {
 	// change points (step numbers drawn before the run) the running task drops below all others. A
 	// task can so be held back across an arbitrarily long stretch of another task's work - the shape
 	// "reader pauses, installer completes, reader resumes" that a per-point coin rarely produces.
-	ticks    int
-	pct      bool
-	prio     [maxTasks]int
-	change   []int // global step numbers
+	ticks  int
+	pct    bool
+	prio   [maxTasks]int
+	change []int // global step numbers
 	// task-relative change points: task changeTask[i] is demoted when it passes its changeAt[i]-th own
 	// scheduling point (a short task's few points are hit far more often than through global step numbers)
 	changeTask []int
